@@ -117,23 +117,34 @@ fn cdiv(z: CDD, w: CDD) -> CDD {
 /// (two candidates within 1e-6 relative: another correct tie-break could take the other row) or an entry is outside 2^+-900.
 /// Every implementation that pivots on a row of largest magnitude obtains these factors up to rounding, and then
 /// |b - A x| <= gamma_3n |L||U||x| componentwise (Higham, Thm 9.4) - a bound without the worst-case growth 2^(n-1).
-fn ref_lu_absprod(a: &[CDD], n: usize) -> Option<f64> {
-    let mut m = a.to_vec();
-    for z in &m { let v = z.abs(); if !v.is_finite() || (v != 0.0 && (v < pow2(-900) || v > pow2(900))) { return None; } }
+struct RefLu { m: Vec<f64>, norm: f64 }     // m = P^T |L||U| (rows in the order of A), norm = its infinity norm
+fn ref_lu(a: &[CDD], n: usize) -> Option<RefLu> {
+    let mut m = a.to_vec(); let mut perm: Vec<usize> = (0..n).collect();
+    for z in &m { let v = z.abs(); if !v.is_finite() || (v != 0.0 && (v < pow2(-1010) || v > pow2(1010))) { return None; } }
     for k in 0..n {
         let mut p = k; let mut best = m[k * n + k].abs(); let mut second = 0.0f64;
         for i in k + 1..n { let v = m[i * n + k].abs(); if v > best { second = best; best = v; p = i; } else if v > second { second = v; } }
         if !(best > 0.0) || second > best * (1.0 - 1e-6) { return None; }
-        if p != k { for j in 0..n { m.swap(k * n + j, p * n + j); } }
+        if p != k { for j in 0..n { m.swap(k * n + j, p * n + j); } perm.swap(k, p); }
         let piv = m[k * n + k];
         for i in k + 1..n { let f = cdiv(m[i * n + k], piv); m[i * n + k] = f; if f.abs() != 0.0 { for j in k + 1..n { let t = f.mul(m[k * n + j]); m[i * n + j] = m[i * n + j].sub(t); } } }
     }
-    // row sums of |L| |U| (L unit lower, stored below the diagonal)
     let ab: Vec<f64> = m.iter().map(|z| z.abs()).collect();
-    let urow: Vec<f64> = (0..n).map(|k| (k..n).map(|j| ab[k * n + j]).sum()).collect();
-    let mut best = 0.0f64;
-    for i in 0..n { let mut s = urow[i]; for k in 0..i { s += ab[i * n + k] * urow[k]; } best = nmax(best, s); }
-    if best.is_finite() && best > 0.0 { Some(best) } else { None }
+    let mut out = vec![0.0f64; n * n]; let mut norm = 0.0f64;
+    for i in 0..n {
+        let mut rs = 0.0;
+        for j in 0..n { let mut s = if i <= j { ab[i * n + j] } else { 0.0 }; for k in 0..i.min(j + 1) { s += ab[i * n + k] * ab[k * n + j]; } out[perm[i] * n + j] = s; rs += s; }
+        norm = nmax(norm, rs);
+    }
+    if norm.is_finite() && norm > 0.0 { Some(RefLu { m: out, norm }) } else { None }
+}
+fn ref_lu_absprod(a: &[CDD], n: usize) -> Option<f64> { ref_lu(a, n).map(|r| r.norm) }
+/// componentwise residual in units of eps (|L||U||x|)_i, the scaling-invariant form of the same bound: max over the rows
+fn cw_units(res: &[CDD], rl: &RefLu, x: &[CDD], n: usize, scale: f64) -> i64 {
+    let mut worst = 0i64;
+    for i in 0..n { let den: f64 = (0..n).map(|k| rl.m[i * n + k] * x[k].abs()).sum(); let r = res[i].abs();
+        let u = if r == 0.0 { 0 } else { units(r, EPS * den / scale) }; worst = worst.max(u); }
+    worst
 }
 /// reference determinant: elimination with partial pivoting in (complex) double-double
 fn det_ref(a: &[CDD], n: usize) -> CDD {
@@ -240,6 +251,9 @@ fn operand_hash(case: &Value) -> String {
 fn meta_of(case: &Value) -> Value {
     let mut m = json!({"cid": geti(case, "cid"), "n": geti(case, "n"), "fam": gets(case, "fam"), "h": operand_hash(case)});
     if let Some(k) = case.get("mixk") { m["k"] = k.clone(); m["mix"] = json!(true); }
+    // cw: magnitudes are mixed WITHIN the matrix (independent row / column scalings): only the scaling-invariant componentwise
+    // measures are meaningful; dete: the matrix is 2^(row + column exponents) times an integer matrix with determinant detm
+    for k in ["cw", "detm", "dete", "inv"] { if let Some(v) = case.get(k) { m[k] = v.clone(); } }
     m
 }
 fn base_event<T: GEl>(meta: &Value, op: &str) -> Value { let mut e = meta.clone(); e["op"] = json!(op); e["ty"] = json!(T::NAME); e }
@@ -257,7 +271,8 @@ fn q_solve<T: GEl>(meta: &Value, a0: &Matrix<T>, b: &Vector<T>, want: Option<&Va
     let n = a0.rows();
     let ac = mat_cdd(a0); let bc = vec_cdd(b);
     let na = mat_norm_inf(&ac, n); let nb = vec_norm_inf(&bc);
-    let sharp = if is_rat::<T>() { None } else { ref_lu_absprod(&ac, n) };
+    let sharp = if is_rat::<T>() { None } else { ref_lu(&ac, n) };
+    let cw = flag(meta, "cw", false);
     let mut results: Vec<Option<Vector<T>>> = Vec::new();
     for solver in ["basic", "lu"] {
         let mut m = a0.clone();
@@ -276,8 +291,11 @@ fn q_solve<T: GEl>(meta: &Value, a0: &Matrix<T>, b: &Vector<T>, want: Option<&Va
                     let xc = vec_cdd(x);
                     let res = residual(&ac, &xc, &bc, n);
                     let (err, unit) = (vec_norm_inf(&res), EPS * (na * vec_norm_inf(&xc) + nb));
-                    e["units"] = json!(units(err, unit)); e["units_m"] = json!(units(err, unit / 1000.0));
-                    if let Some(lu) = sharp { let su = EPS * lu * vec_norm_inf(&xc); e["sunits"] = json!(units(err, su)); e["sunits_m"] = json!(units(err, su / 1000.0)); }
+                    if !cw { e["units"] = json!(units(err, unit)); e["units_m"] = json!(units(err, unit / 1000.0)); }
+                    if let Some(rl) = &sharp {
+                        if !cw { let su = EPS * rl.norm * vec_norm_inf(&xc); e["sunits"] = json!(units(err, su)); e["sunits_m"] = json!(units(err, su / 1000.0)); }
+                        e["cunits"] = json!(cw_units(&res, rl, &xc, n, 1.0)); e["cunits_m"] = json!(cw_units(&res, rl, &xc, n, 1000.0));
+                    } else if cw { e["cunits"] = json!(if err.is_finite() { 0 } else { SAT }); e["noref"] = json!(true); }
                 } else { e["units"] = json!(SAT); }
             }
         }
@@ -300,8 +318,12 @@ fn q_solve<T: GEl>(meta: &Value, a0: &Matrix<T>, b: &Vector<T>, want: Option<&Va
             let zero = vec![CDD::ZERO; n];
             let ad = residual(&ac, &d, &zero, n);
             let (err, unit) = (vec_norm_inf(&ad), EPS * (na * nmax(vec_norm_inf(&c1), vec_norm_inf(&c2)) + nb));
-            e["units"] = json!(units(err, unit)); e["units_m"] = json!(units(err, unit / 1000.0));
-            if let Some(lu) = sharp { let su = EPS * lu * nmax(vec_norm_inf(&c1), vec_norm_inf(&c2)); e["sunits"] = json!(units(err, su)); }
+            if !cw { e["units"] = json!(units(err, unit)); e["units_m"] = json!(units(err, unit / 1000.0)); }
+            if let Some(rl) = &sharp {
+                if !cw { let su = EPS * rl.norm * nmax(vec_norm_inf(&c1), vec_norm_inf(&c2)); e["sunits"] = json!(units(err, su)); }
+                let xm: Vec<CDD> = (0..n).map(|i| CDD::from(c1[i].abs() + c2[i].abs(), 0.0)).collect();
+                e["cunits"] = json!(cw_units(&ad, rl, &xm, n, 1.0));
+            } else if cw { e["cunits"] = json!(if err.is_finite() { 0 } else { SAT }); e["noref"] = json!(true); }
         } else { e["units"] = json!(SAT); }
         out.ev(e);
     }
@@ -324,10 +346,23 @@ fn q_det<T: GEl>(meta: &Value, a0: &Matrix<T>, wdet: Option<&Value>, out: &mut O
                 let ac = mat_cdd(a0);
                 // integer input: the exact determinant (recomputed by TLC from the logged matrix); otherwise double-double elimination
                 let exact = match int_proj(a0) { Some((re, im)) if im.iter().all(|x| *x == 0) => bareiss_fits(&re, n).map(|x| (x, re)), _ => None };
-                let reference = match &exact { Some((x, _)) => CDD::from(*x as f64, 0.0), None => det_ref(&ac, n) };
+                let cw = flag(meta, "cw", false);
+                // D1 * A0 * D2 with power-of-two scalings: det = det(A0) * 2^(sum of the exponents), exactly
+                let scaled_exact = match (meta.get("detm").and_then(|v| v.as_i64()), meta.get("dete").and_then(|v| v.as_i64())) {
+                    (Some(mm), Some(ee)) if ee.abs() <= 1000 => Some(CDD::from(mm as f64 * pow2(ee.clamp(-1000, 1000)), 0.0)), _ => None };
+                let reference = match (&exact, scaled_exact) { (Some((x, _)), _) => CDD::from(*x as f64, 0.0), (None, Some(r)) => r, _ => det_ref(&ac, n) };
                 let err = cd(&d).sub(reference).abs();
                 let unit = (n as f64) * EPS * mat_norm_frob(&ac).powi(n as i32);
-                e["units"] = json!(units(err, unit)); e["units_m"] = json!(units(err, unit / 1000.0));
+                if !cw { e["units"] = json!(units(err, unit)); e["units_m"] = json!(units(err, unit / 1000.0)); }
+                // scaling-invariant first-order bound: |det(A + dA) - det A| <= |det A| tr(|A^-1| |dA|), |dA| <= gamma_n |L||U|
+                let dabs = reference.abs();
+                let mut have = false;
+                // only for input that is PROVABLY nonsingular (exact arithmetic of the generator)
+                if flag(meta, "inv", false) && dabs > 0.0 && dabs.is_finite() { if let (Some(rl), Some(xi)) = (ref_lu(&ac, n), cdd_inverse(&ac, n)) {
+                    let mut tr = 0.0f64; for i in 0..n { for j in 0..n { tr += xi[i * n + j].abs() * rl.m[j * n + i]; } }
+                    if tr.is_finite() && tr > 0.0 { let su = EPS * dabs * tr; e["sdunits"] = json!(units(err, su)); e["sdunits_m"] = json!(units(err, su / 1000.0)); have = true; }
+                } }
+                if cw && !have { e["sdunits"] = json!(if err.is_finite() && cd(&d).abs().is_finite() { 0 } else { SAT }); e["noref"] = json!(true); }
                 if let Some((x, re)) = exact { e["a"] = json!({"r": n, "c": n, "d": re}); e["dex"] = json!(x); }
                 e["pre"] = pre; e["post"] = hexes(a0);
             }
@@ -356,13 +391,21 @@ fn q_inverse<T: GEl>(meta: &Value, a0: &Matrix<T>, lres: bool, out: &mut Out) {
                     let ac = mat_cdd(a0); let xc = mat_cdd(&x);
                     let (na, n1, nx) = (mat_norm_inf(&ac, n), mat_norm_1(&ac, n), mat_norm_max(&xc));
                     let (rerr, runit) = (mat_norm_max(&matmul_minus_id(&ac, &xc, n)), EPS * na * nx);
-                    e["runits"] = json!(units(rerr, runit)); e["runits_m"] = json!(units(rerr, runit / 1000.0));
-                    if let Some(lu) = ref_lu_absprod(&ac, n) { let su = EPS * lu * nx; e["srunits"] = json!(units(rerr, su)); e["srunits_m"] = json!(units(rerr, su / 1000.0)); }
-                    if lres {
+                    let cw = flag(meta, "cw", false);
+                    let rmat = matmul_minus_id(&ac, &xc, n);
+                    if !cw { e["runits"] = json!(units(rerr, runit)); e["runits_m"] = json!(units(rerr, runit / 1000.0)); }
+                    if let Some(rl) = ref_lu(&ac, n) {
+                        if !cw { let su = EPS * rl.norm * nx; e["srunits"] = json!(units(rerr, su)); e["srunits_m"] = json!(units(rerr, su / 1000.0)); }
+                        let (mut w, mut wm) = (0i64, 0i64);
+                        for j in 0..n { let col: Vec<CDD> = (0..n).map(|i| rmat[i * n + j]).collect(); let xj: Vec<CDD> = (0..n).map(|i| xc[i * n + j]).collect();
+                            w = w.max(cw_units(&col, &rl, &xj, n, 1.0)); wm = wm.max(cw_units(&col, &rl, &xj, n, 1000.0)); }
+                        e["crunits"] = json!(w); e["crunits_m"] = json!(wm);
+                    } else if cw { e["crunits"] = json!(if rerr.is_finite() { 0 } else { SAT }); e["noref"] = json!(true); }
+                    if lres && !cw {
                         let (lerr, lunit) = (mat_norm_max(&matmul_minus_id(&xc, &ac, n)), EPS * (n as f64) * (na * nx) * (n1 * nx));
                         e["lunits"] = json!(units(lerr, lunit)); e["lunits_m"] = json!(units(lerr, lunit / 1000.0));
                     }
-                } else { e["runits"] = json!(SAT); if lres { e["lunits"] = json!(SAT); } }
+                } else { e["runits"] = json!(SAT); e["crunits"] = json!(SAT); if lres { e["lunits"] = json!(SAT); } }
                 e["pre"] = pre; e["post"] = hexes(a0);
             }
         }
@@ -421,18 +464,29 @@ fn mutate<T: GEl>(m: &mut Matrix<T>, st: &Value) {
 }
 /// kappa_inf <= 1e8 by an own double-double Gauss-Jordan inverse (domain filter for the left inverse residual)
 fn kappa_ok(a: &[CDD], n: usize) -> bool {
-    let mut m = a.to_vec(); let mut x: Vec<CDD> = (0..n * n).map(|k| if k / n == k % n { CDD::from(1.0, 0.0) } else { CDD::ZERO }).collect();
+    match cdd_inverse(a, n) { Some(x) => { let kappa = mat_norm_inf(a, n) * mat_norm_inf(&x, n); kappa.is_finite() && kappa <= 1e8 } None => false }
+}
+/// own double-double Gauss-Jordan inverse (partial pivoting); None if a pivot column vanishes
+fn cdd_inverse(a: &[CDD], n: usize) -> Option<Vec<CDD>> {
+    // LU with partial pivoting, then forward / back substitution per column (intermediate values stay of the size of the
+    // inverse's entries, also when rows and columns are scaled very differently)
+    let mut m = a.to_vec(); let mut perm: Vec<usize> = (0..n).collect();
     for k in 0..n {
         let mut p = k; let mut best = m[k * n + k].abs();
         for i in k + 1..n { let v = m[i * n + k].abs(); if v > best { best = v; p = i; } }
-        if !(best > 0.0) { return false; }
-        if p != k { for j in 0..n { m.swap(k * n + j, p * n + j); x.swap(k * n + j, p * n + j); } }
+        if !(best > 0.0) || !best.is_finite() { return None; }
+        if p != k { for j in 0..n { m.swap(k * n + j, p * n + j); } perm.swap(k, p); }
         let piv = m[k * n + k];
-        for j in 0..n { m[k * n + j] = cdiv(m[k * n + j], piv); x[k * n + j] = cdiv(x[k * n + j], piv); }
-        for i in 0..n { if i != k { let f = m[i * n + k]; for j in 0..n { let t = f.mul(m[k * n + j]); m[i * n + j] = m[i * n + j].sub(t); let t = f.mul(x[k * n + j]); x[i * n + j] = x[i * n + j].sub(t); } } }
+        for i in k + 1..n { let f = cdiv(m[i * n + k], piv); m[i * n + k] = f; if f.abs() != 0.0 { for j in k + 1..n { let t = f.mul(m[k * n + j]); m[i * n + j] = m[i * n + j].sub(t); } } }
     }
-    let kappa = mat_norm_inf(a, n) * mat_norm_inf(&x, n);
-    kappa.is_finite() && kappa <= 1e8
+    let mut x = vec![CDD::ZERO; n * n];
+    for c in 0..n {
+        let mut y: Vec<CDD> = (0..n).map(|i| if perm[i] == c { CDD::from(1.0, 0.0) } else { CDD::ZERO }).collect();
+        for i in 0..n { for k in 0..i { let t = m[i * n + k].mul(y[k]); y[i] = y[i].sub(t); } }
+        for i in (0..n).rev() { for k in i + 1..n { let t = m[i * n + k].mul(y[k]); y[i] = y[i].sub(t); } y[i] = cdiv(y[i], m[i * n + i]); }
+        for i in 0..n { x[i * n + c] = y[i]; }
+    }
+    Some(x)
 }
 fn run_seq<T: GEl>(case: &Value, out: &mut Out) {
     let n = getu(case, "n");
@@ -444,7 +498,7 @@ fn run_seq<T: GEl>(case: &Value, out: &mut Out) {
         let cur = if m.rows() == n && m.cols() == n { int_proj(&m) } else { None };
         let nonsing = cur.as_ref().map(|(re, im)| nonsingular_mod_p(re, im, n)).unwrap_or(false);
         match gets(st, "op") {
-            "det" => { if let Some((re, _)) = &cur { if !is_rat::<T>() || bareiss_fits(re, n).is_some() { q_det(&meta, &m, None, out); } } }
+            "det" => { meta["inv"] = json!(nonsing); if let Some((re, _)) = &cur { if !is_rat::<T>() || bareiss_fits(re, n).is_some() { q_det(&meta, &m, None, out); } } }
             "inverse" => { if let Some((re, _)) = &cur { if nonsing && guarded(|| if is_rat::<T>() { inverse_fits(re, n) } else { kappa_ok(&mat_cdd(&m), n) }).unwrap_or(false) { q_inverse(&meta, &m, true, out); } } }
             "solve" => { if let Some((re, _)) = &cur { let b = svec::<T>(st, "b"); if nonsing && (!is_rat::<T>() || guarded(|| solve_fits(re, n, &ivec(&st["b"]))).unwrap_or(false)) { q_solve(&meta, &m, &b, None, out); } } }
             // calls whose results are discarded: they give a memoising implementation the opportunity to cache
@@ -470,12 +524,30 @@ fn run_quiet<T: GEl>(part: &Value) {
     }
     let mut c = a0.clone(); let _ = guarded(|| c.lu_decomp_in_place());
 }
+/// a part that makes the entry points PANIC part-way (exact arithmetic overflowing after a row exchange and an elimination
+/// step, a right-hand side of the wrong length, a singular system): whatever such a call leaves behind (thread-local or static
+/// scratch, half-updated buffers) must not influence the calls that follow.  The panicking calls themselves are not judged.
+fn run_poison<T: GEl>(part: &Value) {
+    let a0 = match guarded(|| build_mat::<T>(part)) { Ok(m) => m, Err(_) => return };
+    let b: Vector<T> = Vector::create(ivec(&part["b"]).iter().map(|v| T::mk(*v, 0, 0, 1)).collect());
+    for entry in part["order"].as_array().map(|a| a.iter().map(|v| v.as_str().unwrap_or("").to_string()).collect::<Vec<_>>()).unwrap_or_default() {
+        match entry.as_str() {
+            "basic" => { let mut c = a0.clone(); let _ = guarded(|| c.solve_basic(&b)); }
+            "lu" => { let mut c = a0.clone(); let _ = guarded(|| c.solve_lu(&b)); }
+            "decomp" => { let mut c = a0.clone(); let _ = guarded(|| c.lu_decomp_in_place()); }
+            "det" => { let _ = guarded(|| a0.determinant()); }
+            _ => { let _ = guarded(|| a0.inverse()); }
+        }
+    }
+}
 /// kind "mix": a HISTORY of calls of different sizes, element types and entry points in one case (so that a replay
 /// re-executes the whole history): state leaking from one call into the next (static / thread-local scratch, capacity reuse)
 fn run_mix(case: &Value, out: &mut Out) {
     for (k, part) in case["parts"].as_array().unwrap().iter().enumerate() {
         let mut p = part.clone(); p["cid"] = case["cid"].clone(); p["mixk"] = json!(k);
-        if flag(&p, "quiet", false) {
+        if gets(&p, "kind") == "poison" {
+            match gets(&p, "ty") { "rat" => run_poison::<Rat>(&p), "f64" => run_poison::<f64>(&p), _ => run_poison::<Cmplx>(&p) }
+        } else if flag(&p, "quiet", false) {
             match gets(&p, "ty") { "rat" => run_quiet::<Rat>(&p), "f64" => run_quiet::<f64>(&p), _ => run_quiet::<Cmplx>(&p) }
         } else { exec(&p, out); }
     }
@@ -750,13 +822,13 @@ pub fn gen(tier: &str, seed: u64, out: &mut Out) {
     if which != "c02" {
         gen_solve(t, seed, &mut sink); gen_solve_hard(t, seed, &mut sink); gen_seq(t, seed, "c01", &mut sink); gen_ill(t, seed, &mut sink); gen_banded(t, seed, "solve", &mut sink);
         mixes.extend(gen_mix(t, seed, "solve", &sink.buf));
-        gen_sweep(t, seed, "solve", &mut sink); gen_wilkinson(t, seed, "solve", &mut sink); gen_large(t, seed, &mut sink);
+        gen_sweep(t, seed, "solve", &mut sink); gen_wilkinson(t, seed, "solve", &mut sink); gen_large(t, seed, &mut sink); gen_rowcol(t, seed, "solve", &mut sink); gen_structured(t, seed, "solve", &mut sink);
     }
     let mark = sink.buf.len();
     if which != "c01" {
         gen_det(t, seed, &mut sink); gen_det_hard(t, seed, &mut sink); gen_seq(t, seed, "c02", &mut sink); gen_banded(t, seed, "det", &mut sink);
         mixes.extend(gen_mix(t, seed, "det", &sink.buf[mark..]));
-        gen_sweep(t, seed, "det", &mut sink); gen_wilkinson(t, seed, "det", &mut sink);
+        gen_sweep(t, seed, "det", &mut sink); gen_wilkinson(t, seed, "det", &mut sink); gen_rowcol(t, seed, "det", &mut sink); gen_structured(t, seed, "det", &mut sink);
     }
     if std::env::var("GAUSS_COUNTS").is_ok() { for (k, v) in &sink.counts { eprintln!("{} {}", k, v); } }
     sink.finish(mixes);
@@ -1157,9 +1229,43 @@ fn gen_mix(tier: &str, seed: u64, kind: &str, pool: &[Value]) -> Vec<Value> {
         let mut nlogged = 0; let zl = zig.len();
         for (k, p) in zig.iter_mut().enumerate() { p.as_object_mut().unwrap().remove("cid"); let quiet = k + 1 < zl && rng.gen_bool(0.4); if quiet { p["quiet"] = json!(true); } else { nlogged += 1; } }
         if nlogged == 0 { continue; }
+        // two thirds of the histories are poisoned: a panicking call is placed immediately in front of logged parts
+        if m % 3 != 2 {
+            let mut with: Vec<Value> = Vec::new();
+            for p in zig.into_iter() {
+                if !flag(&p, "quiet", false) && rng.gen_bool(0.5) { let like = getu(&p, "n"); with.push(poison_part(&mut rng, like)); }
+                with.push(p);
+            }
+            zig = with;
+        }
         out.push(json!({"kind": "mix", "ty": "mix", "fam": "mix", "n": zig.len(), "parts": zig}));
     }
     out
+}
+/// see run_poison; `like`: order of the part that follows (the poisoned call has the same or a different order)
+fn poison_part(rng: &mut StdRng, like: usize) -> Value {
+    let n = if rng.gen_bool(0.5) { like.max(2) } else { rng.gen_range(2..=7) };
+    let mut order: Vec<&str> = vec!["basic", "lu", "decomp", "det", "inv"]; order.shuffle(rng);
+    if rng.gen_bool(0.5) { order.truncate(1 + rng.gen_range(0..2)); }
+    let mode = rng.gen_range(0..3);
+    let (ty, a, b): (&str, Vec<i64>, Vec<i64>) = match mode {
+        0 => { // exact arithmetic that overflows i128 after the first exchange and elimination step
+            let n = n.max(3);
+            let big = |rng: &mut StdRng| rng.gen_range(100_000_000_000_000_000i64..4_000_000_000_000_000_000i64) * if rng.gen_bool(0.5) { 1 } else { -1 };
+            let mut a: Vec<i64> = (0..n * n).map(|_| big(rng)).collect(); a[0] = rng.gen_range(1..1000);
+            ("rat", a, (0..n).map(|_| rng.gen_range(-9..=9)).collect()) }
+        1 => { // right-hand side of the wrong length
+            let ty = ["rat", "f64", "cx"][rng.gen_range(0..3)];
+            let a: Vec<i64> = (0..n * n).map(|_| rng.gen_range(-9..=9)).collect(); let len = if rng.gen_bool(0.5) { n + 1 } else { n - 1 };
+            (ty, a, (0..len).map(|_| rng.gen_range(-9..=9)).collect()) }
+        _ => { // singular: an exchange at step 0, then two identical rows (exact division by zero)
+            let mut a: Vec<i64> = (0..n * n).map(|_| rng.gen_range(-9..=9)).collect(); a[0] = 0; a[n] = 5;
+            let (r1, r2) = (n - 1, n - 2); for j in 0..n { a[r1 * n + j] = a[r2 * n + j]; }
+            ("rat", a, (0..n).map(|_| rng.gen_range(-9..=9)).collect()) }
+    };
+    let n = (a.len() as f64).sqrt().round() as usize;
+    let fam = ["poison_overflow", "poison_mismatch", "poison_singular"][mode];
+    json!({"kind": "poison", "quiet": true, "ty": ty, "n": n, "fam": fam, "a": {"r": n, "c": n, "d": a}, "b": b, "order": order})
 }
 /// small-integer band matrices stored densely, with a small diagonal and larger sub-diagonals: the exchange at step k brings up
 /// a row that reaches further to the right than the row it replaces; and lower triangular + one super-diagonal likewise
@@ -1293,4 +1399,115 @@ fn gen_large(tier: &str, seed: u64, sink: &mut Sink) {
             }
         }
     } } }
+}
+
+// ------------------------------------------------------------------ wave 8: magnitudes mixed within one matrix, structured matrices, poisoned histories
+/// A = D1 * A0 * D2: A0 small integers (exact model: det(A) = det(A0) * 2^(sum of exponents)), D1 / D2 powers of two drawn
+/// independently per row / column.  Row exponents span at most 600 (a multiplier a_ik / a_kk must stay representable), column
+/// exponents up to 1200 apart (entries 2^1074 times smaller than the largest of their own row); every entry, solution component
+/// and inverse entry stays inside the f64 range.  Judged by the scaling-invariant componentwise measures only (cw).
+fn gen_rowcol(tier: &str, seed: u64, kind: &str, sink: &mut Sink) {
+    let mut rng = rng(seed, if kind == "solve" { 1401 } else { 1402 });
+    let reps = if tier == "quick" { 3 } else { 16 };
+    let cset: [i64; 7] = [-600, -300, -100, 0, 100, 300, 600];
+    let rset: [i64; 5] = [-300, -100, 0, 100, 300];
+    for _rep in 0..reps { for n in 2..=8usize { for ty in ["f64", "cx"] { for mode in 0..4 {
+        let cx = ty == "cx";
+        let d = Draw { cx, amax: if n <= 6 { 99 } else { 30 } };
+        for _try in 0..40 {
+            let mut g = match mode { 0 => fam_dense(&mut rng, n, &d), 1 => fam_sparse(&mut rng, n, &d),
+                2 => { let s = rng.gen_range(0..n - 1); let r0 = rng.gen_range(s + 1..n); fam_zeropiv(&mut rng, n, &d, s, r0, 0, true) }
+                _ => fam_cyc_upper(&mut rng, n, &d) };
+            if !g.nonsingular() { continue; }
+            // complex entries are squared by Complex::abs and by the division: half the exponent range
+            let div = if cx { 2 } else { 1 };
+            let mut c: Vec<i64> = (0..n).map(|_| cset[rng.gen_range(0..7)] / div).collect();
+            if kind == "det" && rng.gen_bool(0.6) {
+                // few extreme columns, so that every partial product of the pivots (hence the determinant) stays representable
+                c = vec![0; n]; let p = rand_perm(&mut rng, n); c[p[0]] = -600 / div; c[p[1]] = [500, 560, 300][rng.gen_range(0..3)] / div;
+                if n > 3 && rng.gen_bool(0.5) { c[p[2]] = -100 / div; }
+            }
+            let r: Vec<i64> = match mode { 0 | 2 => (0..n).map(|_| rset[rng.gen_range(0..5)] / div).collect(), _ => vec![0; n] };
+            // at least one row must hold entries more than 2^1074 apart (f64) when the column exponents allow it
+            let spread = c.iter().max().unwrap() - c.iter().min().unwrap();
+            if spread < if cx { 500 } else { 1100 } && rng.gen_bool(0.7) { continue; }
+            scale_rows_cols(&mut g, &r, &c);
+            let pos: i64 = r.iter().chain(c.iter()).filter(|e| **e > 0).sum(); let neg: i64 = r.iter().chain(c.iter()).filter(|e| **e < 0).sum();
+            let det_ok = pos <= 950 / div && neg >= -950 / div;      // every partial product of pivots is representable
+            let name = format!("rowcol{}", mode);
+            let ok = if kind == "solve" {
+                let b = b_random(&mut rng, n, cx, 9);
+                let mut done = push_solve(sink, ty, &name, &g, &b, &r, 1);
+                if done { let last = sink.buf.len() - 1; sink.buf[last]["cw"] = json!(true); }
+                done = done && true; done
+            } else {
+                let done = push_det(sink, ty, &name, &g, 1, det_ok, true);
+                if done { let last = sink.buf.len() - 1; sink.buf[last]["cw"] = json!(true);
+                    if cx { } else if let Some((dm, _)) = bareiss(&g.re, n) { if dm.abs() < (1i128 << 53) { sink.buf[last]["detm"] = json!(dm as i64); sink.buf[last]["dete"] = json!(r.iter().sum::<i64>() + c.iter().sum::<i64>()); } } }
+                done
+            };
+            if ok { break; }
+        }
+    } } } }
+}
+
+const STRUCTS: [&str; 10] = ["symcancel", "symcancel_minor0", "symcancel_minor2", "skewdiag", "persym", "toeplitz", "circulant", "arrowhead", "blocksing", "symdominant"];
+/// small-integer matrices with a recognisable structure (the kind a fast path would test for) that nevertheless NEED row exchanges
+fn fam_structured(rng: &mut StdRng, n: usize, d: &Draw, which: &str) -> Gm {
+    let mut g = Gm::zeros(n);
+    let neg = |v: (i64, i64)| (-v.0, -v.1);
+    let add = |a: (i64, i64), b: (i64, i64)| (a.0 + b.0, a.1 + b.1);
+    match which {
+        "symcancel" | "symcancel_minor0" | "symcancel_minor2" | "symdominant" => {
+            for i in 0..n { for j in i + 1..n { let v = if rng.gen_bool(0.75) { d.any(rng) } else { (0, 0) }; g.set(i, j, v); g.set(j, i, v); } }
+            if which == "symcancel_minor0" && n >= 3 {
+                // row 0: off-diagonal entries cancel in the SIGNED sum and a_00 = 0: the leading 1 x 1 minor vanishes
+                for j in 1..n { g.set(0, j, (0, 0)); g.set(j, 0, (0, 0)); }
+                let t = d.nz(rng); let p = 1 + rng.gen_range(0..n - 2); g.set(0, p, t); g.set(p, 0, t); g.set(0, p + 1, neg(t)); g.set(p + 1, 0, neg(t));
+            }
+            if which == "symcancel_minor2" && n >= 4 {
+                // the leading 2 x 2 block is t * [[1, 1], [1, 1]] (rank one); the signed sums of rows 0 and 1 are made to cancel below
+                let t = d.nz(rng); g.set(0, 1, t); g.set(1, 0, t);
+            }
+            for i in 0..n {
+                let mut sum = (0, 0); let mut abs_sum = 0; for j in 0..n { if j != i { sum = add(sum, g.get(i, j)); abs_sum += g.get(i, j).0.abs() + g.get(i, j).1.abs(); } }
+                let dv = if which == "symdominant" { (abs_sum + 1, 0) }                    // genuinely dominant: no exchange needed (control)
+                         else if which == "symcancel_minor0" && i == 0 { (0, 0) }
+                         else if which == "symcancel_minor2" && i < 2 { g.get(0, 1) }
+                         else { let s = if rng.gen_bool(0.5) { 1 } else { -1 }; let extra = [0, 0, 1][rng.gen_range(0..3)];
+                                if sum == (0, 0) { (s * extra, 0) } else { (s * (sum.0 + extra * sum.0.signum()), s * (sum.1 + extra * sum.1.signum())) } };
+                g.set(i, i, dv);
+            }
+        }
+        "skewdiag" => { for i in 0..n { for j in i + 1..n { let v = d.any(rng); g.set(i, j, v); g.set(j, i, neg(v)); } if rng.gen_bool(0.6) { g.set(i, i, (rng.gen_range(-1..=1), 0)); } } }
+        "persym" => { for i in 0..n { for j in 0..n { if i + j <= n - 1 { let v = d.any(rng); g.set(i, j, v); g.set(n - 1 - j, n - 1 - i, v); } } } }
+        "toeplitz" => { let t: Vec<(i64, i64)> = (0..2 * n - 1).map(|_| d.any(rng)).collect(); for i in 0..n { for j in 0..n { g.set(i, j, t[i + n - 1 - j]); } } }
+        "circulant" => { let c: Vec<(i64, i64)> = (0..n).map(|_| d.any(rng)).collect(); for i in 0..n { for j in 0..n { g.set(i, j, c[(j + n - i) % n]); } } }
+        "arrowhead" => { let tip = if rng.gen_bool(0.5) { 0 } else { n - 1 };
+            for i in 0..n { g.set(i, i, if rng.gen_bool(0.8) { d.any(rng) } else { (0, 0) }); g.set(tip, i, d.nz(rng)); g.set(i, tip, d.nz(rng)); } }
+        _ => { // blocksing: the leading k x k block is singular (a repeated row), the whole matrix usually is not
+            let k = 2 + rng.gen_range(0..n - 3);
+            for i in 0..n { for j in 0..n { g.set(i, j, d.any(rng)); } }
+            for j in 0..k { let v = g.get(0, j); g.set(k - 1, j, v); }
+        }
+    }
+    g
+}
+fn gen_structured(tier: &str, seed: u64, kind: &str, sink: &mut Sink) {
+    let mut rng = rng(seed, if kind == "solve" { 1501 } else { 1502 });
+    let reps = if tier == "quick" { 2 } else { 10 };
+    for _rep in 0..reps { for n in [5usize, 6, 7, 8, 9, 10, 12] { for ty in ["rat", "f64", "cx"] { for which in STRUCTS {
+        if n > 8 && _rep % 2 == 1 { continue; }
+        let cx = ty == "cx"; let rat = ty == "rat";
+        let d = Draw { cx, amax: if rat { if n <= 6 { 3 } else if n <= 8 { 2 } else { 1 } } else { 5 } };
+        for _try in 0..25 {
+            let g = fam_structured(&mut rng, n, &d, which);
+            let ok = if kind == "solve" { let b = b_random(&mut rng, n, cx, 3); push_solve(sink, ty, &format!("st_{}", which), &g, &b, &vec![0; n], 1) }
+                     else { let done = (which == "blocksing" || g.nonsingular()) && push_det(sink, ty, &format!("st_{}", which), &g, 1, true, false);
+                            // exact inverses of order > 8 are expensive to validate (2 n cross-multiplied systems per event): determinant only
+                            if done && rat && n > 8 { let last = sink.buf.len() - 1; sink.buf[last]["inv"] = json!(false); }
+                            done };
+            if ok { break; }
+        }
+    } } } }
 }
